@@ -30,6 +30,10 @@ func main() {
 		determRun()
 	case "determ-child":
 		determChild()
+	case "conf-fuzz":
+		confFuzz()
+	case "conf-fuzz-one":
+		confFuzzOne()
 	default:
 		fmt.Fprintln(os.Stderr, "unknown subcommand", os.Args[1])
 		vh.Flush()
